@@ -17,6 +17,7 @@ Inductive pv :=
 | PBool (b: bool)
 | PInt (z: Z)
 | PFlt (z: Z)            (* a float with an integral value (0.0, 1.0, -0.0 = 0.0 ...) *)
+| PFltX (n: nat)         (* any other finite float, numbered by the harness *)
 | PNaN                   (* float('nan') *)
 | PStr (s: string)
 | POpq (n: nat).         (* any other object; numbered up to Python == by the harness *)
@@ -31,8 +32,12 @@ Definition pv_eqb (a b: pv) : bool :=
   | PBool x, PBool y => Bool.eqb x y
   | PInt x, PInt y | PFlt x, PFlt y => x =? y
   | PStr x, PStr y => String.eqb x y
-  | POpq x, POpq y => Nat.eqb x y
+  | POpq x, POpq y | PFltX x, PFltX y => Nat.eqb x y
   | _, _ => false end.
+
+(* math.isnan(v) is defined (bool, int, float); anything else raises TypeError *)
+Definition is_real (v: pv) : bool :=
+  match v with PBool _ | PInt _ | PFlt _ | PFltX _ | PNaN => true | _ => false end.
 
 (* Python == : numbers compare across bool/int/float, NaN equals nothing *)
 Definition num (v: pv) : option Z :=
@@ -43,7 +48,7 @@ Definition py_eq (a b: pv) : bool :=
   | _, _ => match a, b with
             | PNone, PNone => true
             | PStr s, PStr t => String.eqb s t
-            | POpq i, POpq j => Nat.eqb i j
+            | POpq i, POpq j | PFltX i, PFltX j => Nat.eqb i j
             | _, _ => false end
   end.
 
@@ -150,37 +155,50 @@ Definition key_kw (c: sctx) (p: fplan) : string :=
 Definition key_lit (c: sctx) (p: fplan) : string :=
   match p.(p_alias) with Some a => if c.(s_ba) then a else p.(p_name) | None => p.(p_name) end.
 
-(* _pack_method_set_value: `if value != <default>:` / `if not isnan(value):` on the RAW value *)
-Definition guard (od: bool) (p: fplan) (raw: pv) : bool :=
+(* _pack_method_set_value: `if value != <default>:` / `if not isnan(value):` on the RAW value.
+   None = the test raises TypeError (math.isnan of a non-number) *)
+Definition guard (od: bool) (p: fplan) (raw: pv) : option bool :=
   if od then
     match default_value p with
-    | None => true
-    | Some PNaN => negb (is_nan raw)
-    | Some d => negb (py_eq raw d) end
-  else true.
+    | None => Some true
+    | Some PNaN => if is_real raw then Some (negb (is_nan raw)) else None
+    | Some d => Some (negb (py_eq raw d)) end
+  else Some true.
 
-Definition emit_kw (c: sctx) (r: row) : list (string * pv) :=
+Definition out := option (list (string * pv)).      (* None: TypeError *)
+Definition guarded (g: option bool) (l: list (string * pv)) : out :=
+  match g with Some true => Some l | Some false => Some [] | None => None end.
+
+Definition emit_kw (c: sctx) (r: row) : out :=
   let p := fst r in let raw := fst (snd r) in
   let k := key_kw c p in
   let dn := default_is_none p in
   if nullable p then
     if p.(p_trivial) && negb c.(s_on) && negb c.(s_fon) && negb (c.(s_od) && dn) then
-      if guard c.(s_od) p raw then [(k, raw)] else []
+      guarded (guard c.(s_od) p raw) [(k, raw)]
     else if negb (is_none raw) then
-      if guard (c.(s_od) && negb dn) p raw then [(k, pval p (snd r))] else []
-    else if c.(s_on) && negb c.(s_fon) then []
-    else if c.(s_od) && dn then []
-    else if c.(s_fon) then (if negb c.(r_on) then [(k, PNone)] else [])
-    else [(k, PNone)]
+      guarded (guard (c.(s_od) && negb dn) p raw) [(k, pval p (snd r))]
+    else if c.(s_on) && negb c.(s_fon) then Some []
+    else if c.(s_od) && dn then Some []
+    else if c.(s_fon) then (if negb c.(r_on) then Some [(k, PNone)] else Some [])
+    else Some [(k, PNone)]
   else
-    if guard c.(s_od) p raw then [(k, pval p (snd r))] else [].
+    guarded (guard c.(s_od) p raw) [(k, pval p (snd r))].
 
-Definition emit_lit (c: sctx) (r: row) : list (string * pv) := [(key_lit c (fst r), pval (fst r) (snd r))].
+Definition emit_lit (c: sctx) (r: row) : out := Some [(key_lit c (fst r), pval (fst r) (snd r))].
 
-Definition body (c: sctx) (sort: bool) (rows: list row) : list (string * pv) :=
+Section FlatMapM.
+  Context {A C: Type} (f: A -> option (list C)).
+  Fixpoint flat_mapM (l: list A) : option (list C) :=
+    match l with
+    | [] => Some []
+    | x :: r => match f x, flat_mapM r with Some a, Some b => Some (a ++ b)%list | _, _ => None end end.
+End FlatMapM.
+
+Definition body (c: sctx) (sort: bool) (rows: list row) : out :=
   let rows := if sort then sort_by row_name rows else rows in
   let rows := filter (fun r => negb (fst r).(p_omit)) rows in
-  if use_kwargs c (map fst rows) then flat_map (emit_kw c) rows else flat_map (emit_lit c) rows.
+  if use_kwargs c (map fst rows) then flat_mapM (emit_kw c) rows else flat_mapM (emit_lit c) rows.
 
 (* ------------------------------------------------------------------ *)
 (* dispatch: default method, dialect-specific method (add_pack_method,
@@ -202,7 +220,7 @@ Definition ctx_of (o: opts) : sctx :=
      r_on := kwdef o.(o_kon) on0;
      r_ba := kwdef o.(o_kba) ba0 |}.
 
-Definition to_dict_model (o: opts) (fs: list fplan) (vs: list fval) : list (string * pv) :=
+Definition to_dict_model (o: opts) (fs: list fplan) (vs: list fval) : out :=
   body (ctx_of o) o.(o_sort) (combine fs vs).
 
 (* the plain twin: same fields, no per-field omit, no options *)
@@ -210,7 +228,7 @@ Definition clear_omit (p: fplan) : fplan :=
   {| p_name := p.(p_name); p_alias := p.(p_alias); p_tynull := p.(p_tynull); p_trivial := p.(p_trivial);
      p_default := p.(p_default); p_omit := false |}.
 Definition plain_out (fs: list fplan) (vs: list fval) : list (string * pv) :=
-  to_dict_model plain_opts (map clear_omit fs) vs.
+  match to_dict_model plain_opts (map clear_omit fs) vs with Some l => l | None => [] end.
 
 (* ------------------------------------------------------------------ *)
 (* reference: the projection (written from the property text)           *)
@@ -251,8 +269,15 @@ Definition project (e: eff) (fs: list fplan) (vs: list fval) (plain: list (strin
 (* ------------------------------------------------------------------ *)
 (* side conditions                                                      *)
 (* a key of the plain output is None only for a nullable field holding None *)
-Definition row_ok (r: row) : bool :=
+Definition none_ok (r: row) : bool :=
   (nullable (fst r) && is_none (fst (snd r))) || negb (is_none (pval (fst r) (snd r))).
+(* negation of the signature of known finding omit-default-nan-isnan (math.isnan of a non-number):
+   a field whose default is NaN holds a bool/int/float *)
+Definition nan_ok (r: row) : bool :=
+  match default_value (fst r) with Some PNaN => is_real (fst (snd r)) | _ => true end.
+Definition row_ok (r: row) : bool := none_ok r && nan_ok r.
+Definition vals_ok_weak (fs: list fplan) (vs: list fval) : bool :=
+  Nat.eqb (List.length fs) (List.length vs) && forallb none_ok (combine fs vs).
 Definition vals_ok (fs: list fplan) (vs: list fval) : bool :=
   Nat.eqb (List.length fs) (List.length vs) && forallb row_ok (combine fs vs).
 
